@@ -10,14 +10,67 @@ def U(pkg, run, quick, thorough, **kw):
     return d
 
 
-HOOK_COMMITS = ["7d5fc3e"]
+HOOK_COMMITS = ["7d5fc3e", "46899cc"]
 
 # Properties without a registered check yet (kept current; see DESIGN.md).
 NOT_APPLICABLE = {pid: "check not built yet in this round (planned, DESIGN.md section 4)" for pid in
                   ["C%02d" % i for i in range(1, 20)]}
 
 
+_SEM_RULE = ("rapid: well-typed MRO programs built type-directed from a generated universe (structs, wider struct variants, arrays, typed maps): <=4 stages "
+             "(splitting or not), <=3 pipelines calling stages and earlier pipelines, aliases, projections through structs / arrays / typed maps, struct "
+             "narrowing, int->float, composite literals with references, disabled modifiers (pipeline flag inputs or stage bool outputs), preflight stages, "
+             "map calls of stages over arrays / typed maps (static literals, pipeline inputs, run-time stage outputs) inside the envelope recorded in "
+             "known_findings.json; top-level literal arguments; x a generated schedule: which pending job finishes next, 1-3 completions between scheduler "
+             "rounds, rounds drawn from refresh/step patterns {rs, s, r, rss, rrs, srs}. Stage outputs are pseudo-random conforming values keyed by a hash of "
+             "everything the job received. ")
+
+_SEM_ASSUME = ["harness/refsem/eval.go states the dataflow semantics (conversion = drop undeclared struct fields; projection distributes over arrays and typed maps; "
+               "disabled or empty mapped calls yield null / empty / collection of nulls)",
+               "virtual jobs write the same files as mrjob + stage code (_log, journal entries, _outs/_stage_defs, _complete); E2 cross-checks with real processes",
+               "the generator stays inside the map-call envelope listed as known finding C01/map-calls-beyond-simple-envelope"]
+
 CHECKS = {
+    "C01": {
+        "level": "exploration",
+        "engine": "E1",
+        "needs_bins": [],
+        "technique": "property-based testing (rapid): generated programs x generated completion schedules on the real Pipestance with a hooked job manager, compared against an independent reference evaluator",
+        "level_text": ("Every job's _args (and a join's _chunk_defs / _chunk_outs, in order) as found on disk when the job is handed to the job manager, and the top-level "
+                       "_outs at completion, are compared with an independent reference evaluation of the generator's IR; ~2-3k pipestances per quick run. Exploration."),
+        "level_note": "E1: jobs are completed in-process by the harness instead of running mrjob/stage processes; the schedule is owned by rapid.",
+        "rule": _SEM_RULE + "Non-trivial (C01): >= 2 stage jobs and at least one of map call / disabled modifier / projection / sub-pipeline; distinct by hash(program, schedule).",
+        "assumptions": _SEM_ASSUME,
+        "units": [U("props/run", "TestRunSemantics", (700, 14), (12000, 15), env={"VERIF_STATS_PROP": "C01"})],
+        "floors": {"quick": {"map-call:array": 200, "map-call:map": 80, "disabled-true": 150, "projection": 300, "sub-pipeline": 300, "split-stage": 300, "map-source:dynamic": 60}},
+    },
+    "C02": {
+        "level": "exploration",
+        "engine": "E1",
+        "needs_bins": [],
+        "technique": "property-based testing (rapid): invariant over the logical event history of generated adversarial completion schedules vs the reference dependency relation",
+        "level_text": ("At every job start the harness checks, against the reference model's value provenance (weakest reading: only producers the consumed values "
+                       "actually derive from, per instance), that every producer instance has finished, that split < chunks < join inside a fork, and that preflights "
+                       "of enclosing pipelines are done; schedules are generated (which pending job finishes, how many scheduler steps / journal scans in between). Exploration."),
+        "level_note": "In E1 'start' is the hand-over to the job manager; real process start times are covered by the E2 sample.",
+        "rule": _SEM_RULE + "Non-trivial (C02): at some point >= 2 jobs were pending and a job other than the oldest was finished first, or a dependency crosses a pipeline boundary, or forks are expanded at run time.",
+        "assumptions": _SEM_ASSUME,
+        "units": [U("props/run", "TestRunSemantics", (700, 14), (12000, 15), env={"VERIF_STATS_PROP": "C02"})],
+        "floors": {"quick": {"dep-crosses-pipeline": 300, "dynamic-forks": 60, "preflight": 100}},
+    },
+    "C03": {
+        "level": "exploration",
+        "engine": "E1",
+        "needs_bins": [],
+        "technique": "property-based testing (rapid): executed-job multiset of generated runs equals the reference model's job multiset; deterministic no-progress predicate for stalls",
+        "level_text": ("Per call and phase the multiset of jobs handed to the job manager (identified by their canonical arguments) must equal the model's: nothing twice, "
+                       "nothing skipped, nothing for disabled / empty-mapped calls; the run must reach completion (4 fruitless refresh+step rounds with no pending job = stalled). Exploration."),
+        "level_note": "Remote double submission is only reachable through the E2 fake_remote sample.",
+        "rule": _SEM_RULE + "Non-trivial (C03): a mapped call of size != 1, a call disabled at run time, a map over an empty collection, or a split returning != 1 chunks.",
+        "assumptions": _SEM_ASSUME,
+        "units": [U("props/run", "TestRunSemantics", (700, 14), (12000, 15), env={"VERIF_STATS_PROP": "C03"})],
+        "floors": {"quick": {"disabled-true": 150, "map-over-empty": 30, "chunks:0": 100, "chunks:11": 50}},
+    },
     "C12": {
         "level": "exploration",
         "engine": "pure",
